@@ -10,8 +10,9 @@ Everything is over `List Char` (`Str`) so that the proofs stay elementary; the d
 * `WState`/`Op`/`step`/`run` – `MiniJSONWriter<fmt::MemoryWriter>` as it behaves in a production
   build (`assert`s compiled out): a stack of nodes `(kind, n_written)`; `key`/`elem` address the
   top node and push a fresh child, `scalar`/`string` write into the top node, `close` = `Close()`
-  followed by destruction of the top node.  Strings and keys are written **verbatim**
-  (`wrt_.write("\"{}\"", val)`): no escaping — this is faithful to the code (DESIGN A6).
+  followed by destruction of the top node.  Strings and keys are written through `EscapeJSON`
+  (quote, backslash, `\n`, `\r`, `\t`, other control characters as `\u00XY`; /repo fffb19f), non-finite
+  scalars (`fmt` prints `inf`, `-inf`, `nan`) as strings.
 * `parse` – an RFC 8259 parser (whitespace, escapes, `\uXXXX`, number grammar); it is the
   definition of "valid JSON" used by the graph validator.
 -/
@@ -64,7 +65,31 @@ def JMems.keys : JMems → List Str
 
 /-! ## the intended text -/
 
-def quote (s : Str) : Str := '"' :: (s ++ ['"'])
+/-- lower-case hex digit (`%x`) -/
+def hexDigit (n : Nat) : Char := if n < 10 then Char.ofNat (48 + n) else Char.ofNat (87 + n)
+
+/-- `MiniJSONWriter::EscapeJSON`, one character -/
+def escChar (c : Char) : Str :=
+  if c = '"' then ['\\', '"']
+  else if c = '\\' then ['\\', '\\']
+  else if c = '\n' then ['\\', 'n']
+  else if c = '\r' then ['\\', 'r']
+  else if c = '\t' then ['\\', 't']
+  else if c.toNat < 32 then ['\\', 'u', '0', '0', hexDigit (c.toNat / 16), hexDigit (c.toNat % 16)]
+  else [c]
+
+def escape : Str → Str
+  | [] => []
+  | c :: s => escChar c ++ escape s
+
+/-- a string literal as the writer emits it -/
+def quote (s : Str) : Str := '"' :: (escape s ++ ['"'])
+
+/-- what `fmt` prints for a non-finite double -/
+def isNonFinite (tok : Str) : Bool := tok = cl!"inf" || tok = cl!"-inf" || tok = cl!"nan"
+
+/-- `DoWriteScalar`: non-finite doubles are written as strings -/
+def scalarText (tok : Str) : Str := if isNonFinite tok then '"' :: (tok ++ ['"']) else tok
 
 mutual
 def render : Json → Str
@@ -163,7 +188,7 @@ def step (s : WState) : Op → WState
     | [] => s
     | nd :: rest =>
       let nd1 := makeScalar nd
-      ⟨s.out ++ tok, { nd1 with n := nd1.n + 1 } :: rest⟩
+      ⟨s.out ++ scalarText tok, { nd1 with n := nd1.n + 1 } :: rest⟩
   | .string str =>
     match s.stack with
     | [] => s
